@@ -438,7 +438,7 @@ def run_finder(ctx, drv, net, netname, site, kind, label, thunk, params, case_ex
     if status == "no-termination":
         _HANGS.add(hkey)
     sig = {"site": site, "label": label, "ntensors": net_class(net)}
-    case = {"net": net.json(), "site": site, "label": label, "params": params}
+    case = {"net": net.json(), "site": site, "label": label, "params": params, "kind": kind}
     if case_extra:
         case.update(case_extra)
     ctx.case(case, nontrivial=(n >= 3 or bool(set(feats) & {"scalar", "disconnected", "repeated"})))
@@ -823,6 +823,113 @@ def check_builders(ctx, drv, rng):
             ctx.count("agglom:hang-reproduced-in-model-and-code")
 
 
+# ------------------------------------------------------------------------------ sequences of related networks
+
+
+def ring_net(n, d=2):
+    return gen.Net([[i, (i + 1) % n] for i in range(n)], [], {i: d for i in range(n)})
+
+
+def variant(rng, net):
+    """a network related to `net`: what a cache keyed too coarsely would confuse with it"""
+    kind = rng.choice(["scalars+", "scalars+", "scalars-", "rename", "reorder", "transpose", "extra-vector",
+                       "drop-tensor", "resize", "same"])
+    ins = [list(t) for t in net.inputs]
+    out = list(net.output)
+    sizes = dict(net.sizes)
+    if kind == "scalars+":
+        for _ in range(rng.randint(1, 3)):
+            ins.insert(rng.randint(0, len(ins)), [])
+    elif kind == "scalars-":
+        keep = [t for t in ins if t]
+        if len(keep) == len(ins) or len(keep) < 2:
+            ins.append([])
+            kind = "scalars+"
+        else:
+            ins = keep
+    elif kind == "rename":
+        ixs = net.indices()
+        perm = ixs[:]
+        rng.shuffle(perm)
+        m = dict(zip(ixs, perm))
+        ins = [[m[i] for i in t] for t in ins]
+        out = [m[i] for i in out]
+        sizes = {m[i]: d for i, d in sizes.items()}
+    elif kind == "reorder":
+        rng.shuffle(ins)
+    elif kind == "transpose":
+        for t in ins:
+            rng.shuffle(t)
+    elif kind == "extra-vector":
+        ixs = net.indices()
+        if ixs:
+            ins.insert(rng.randint(0, len(ins)), [rng.choice(ixs)])
+    elif kind == "drop-tensor":
+        if len(ins) > 3:
+            ins.pop(rng.randrange(len(ins)))
+            used = {i for t in ins for i in t}
+            out = [i for i in out if i in used]
+            sizes = {i: d for i, d in sizes.items() if i in used}
+    elif kind == "resize":
+        for i in sizes:
+            sizes[i] = rng.choice([2, 3])
+    return kind, gen.Net(ins, out, sizes)
+
+
+SEQ_ROUTES = ["auto", "auto-hq", "greedy", "ReusableHyperOptimizer", "ReusableRandomGreedyOptimizer",
+              "GreedyOptimizer"]
+
+
+def make_route(route, seed):
+    """-> (path_fn(net), tree_fn(net)) sharing whatever state the route keeps between calls"""
+    if route in ("auto", "auto-hq", "greedy"):
+        return (lambda net: ctg.array_contract_path(*args_of(net), optimize=route),
+                lambda net: ctg.array_contract_tree(*args_of(net), optimize=route))
+    if route == "ReusableHyperOptimizer":
+        opt = ctg.ReusableHyperOptimizer(methods=["greedy"], max_repeats=2, parallel=False, optlib="random",
+                                         progbar=False)
+    elif route == "ReusableRandomGreedyOptimizer":
+        opt = pb.ReusableRandomGreedyOptimizer(max_repeats=2, parallel=False, seed=seed)
+    else:
+        opt = pb.GreedyOptimizer()
+    return (lambda net: opt(*args_of(net)), lambda net: opt.search(*args_of(net)))
+
+
+def check_sequence(ctx, drv, rng):
+    """>= 2 related networks through the SAME preset string / optimizer object (caches, reused state):
+    every answer must be a valid complete contraction of the network it was asked about."""
+    route = rng.choice(SEQ_ROUTES)
+    big = route in ("auto", "auto-hq")
+    shape = rng.choice(["ring", "graph"])
+    if big:
+        n0 = rng.randint(14, 18) if route == "auto" else rng.randint(20, 24)
+    else:
+        n0 = rng.randint(5, 9)
+    base = ring_net(n0, rng.choice([2, 3])) if shape == "ring" else medium_net(rng, n0, n0 + 2)
+    seed = rng.randrange(1 << 30)
+    path_fn, tree_fn = make_route(route, seed)
+    nets, kinds = [base], ["base"]
+    for _ in range(rng.randint(1, 3)):
+        k, v = variant(rng, nets[rng.randrange(len(nets))])
+        nets.append(v)
+        kinds.append(k)
+    ctx.count("sequence_route:" + route)
+    for pos, (net, k) in enumerate(zip(nets, kinds)):
+        ctx.count("sequence_step:" + k)
+        which = rng.choice(["path", "tree"])
+        fn = path_fn if which == "path" else tree_fn
+        r = run_finder(ctx, drv, net, "seq-%s-%d" % (route, pos), "sequence", which, route,
+                       (lambda net=net, fn=fn: fn(net)), {"seed": seed, "step": pos, "variant": k},
+                       case_extra={"prefix": [[x.json(), w] for x, w in zip(nets[:pos], _seq_hist)], "route": route})
+        _seq_hist.append(which)
+        if r is None and ctx.violations:
+            break
+    del _seq_hist[:]
+
+
+_seq_hist = []
+
+
 # ------------------------------------------------------------------------------ hyper optimizer route
 
 
@@ -885,6 +992,10 @@ def run(ctx, drv):
         if ctx.time_left() < 20:
             break
         check_builders(ctx, drv, rng)
+    for _ in range(60 if quick else 600):
+        if ctx.time_left() < 20:
+            break
+        check_sequence(ctx, drv, rng)
 
 
 def _rebuild(case):
@@ -926,6 +1037,21 @@ def _rebuild(case):
     if site == "explicit-edge-path":
         ep = tuple(params["edge_path"])
         return net, "tree", lambda: ctg.array_contract_tree(inputs, output, sd, optimize=ep)
+    if site == "sequence":
+        route = case.get("route", label)
+        path_fn, tree_fn = make_route(route, params.get("seed", 0))
+
+        def thunk():
+            for pj, which in case.get("prefix") or []:
+                pnet = gen.Net.from_json(pj)
+                try:
+                    with warnings.catch_warnings():
+                        warnings.simplefilter("ignore")
+                        (path_fn if which == "path" else tree_fn)(pnet)
+                except Exception:  # noqa: BLE001 -- only the state left behind matters here
+                    pass
+            return (path_fn if case.get("kind", "path") == "path" else tree_fn)(net)
+        return net, case.get("kind", "path"), thunk
     if site.startswith("PartitionTreeBuilder."):
         style = params["partitioner"]
         import random as _r
